@@ -276,7 +276,11 @@ namespace foonathan
             {
                 FOONATHAN_MEMORY_ASSERT_MSG(node_size <= max_node_size(), "node_size too big");
                 auto& pool = pools_.get(node_size);
-                reserve_memory(pool, capacity);
+                // room for at least one node, a free list cannot insert less
+                while (pool.usable_size(capacity) < pool.node_size())
+                    capacity += pool.node_size() - pool.usable_size(capacity);
+                auto block = reserve_memory(pool, capacity);
+                pool.insert(block.memory, block.size);
             }
 
             /// \returns The maximum node size for which is a free list.
